@@ -1442,6 +1442,10 @@ func (sa *Application) tryReservedAllocate(headRoom *resources.Resource, nodeIte
 			continue
 		}
 
+		// a node that is no longer schedulable cannot be used, the ask could still be allocated on another node below
+		if ask.GetRequiredNode() == "" && !reserve.node.IsSchedulable() {
+			continue
+		}
 		// Do we need a specific node?
 		if ask.GetRequiredNode() != "" {
 			if !reserve.node.CanAllocate(ask.GetAllocatedResource()) && !ask.HasTriggeredPreemption() {
